@@ -456,12 +456,12 @@ Proof.
     eapply life_same; eauto.
 Qed.
 
-Lemma withdraw_life st caller who t amt : Life st -> Life (fst (withdraw_balance st caller who t amt)).
+Lemma withdraw_life st caller who t amt pf : Life st -> Life (fst (withdraw_balance st caller who t amt pf)).
 Proof.
   intros H. unfold withdraw_balance. destruct (amt <? 0); [exact H|].
   destruct (escrow_address who t) as [[rc ap]|]; [|exact H].
   destruct (negb (zmem caller ap)); [exact H|].
-  destruct (bt_sub_with_min _ _ _ _) as [[e' ex]|]; [|exact H].
+  destruct (bt_sub_with_min _ _ _ _) as [[e' ex]|]; [|exact H]. destruct pf; [exact H|].
   destruct (balance st <? ex); [exact H|]. cbn [fst]. eapply life_same; eauto.
 Qed.
 
@@ -1197,7 +1197,7 @@ Proof.
   - apply Hsame. unfold withdraw_balance. destruct (amount <? 0); [reflexivity|].
     destruct (escrow_address who t) as [[rc ap]|]; [|reflexivity].
     destruct (negb (zmem caller ap)); [reflexivity|].
-    destruct (bt_sub_with_min _ _ _ _) as [[e' ex]|]; [|reflexivity].
+    destruct (bt_sub_with_min _ _ _ _) as [[e' ex]|]; [|reflexivity]. destruct payout_fails; [reflexivity|].
     destruct (balance st <? ex); reflexivity.
   - split; [|intros Hne; exfalso; exact (Hne caller epoch t deals eq_refl)].
     destruct (publish st caller epoch t deals) as [st' [|c r]] eqn:Hp.
